@@ -315,6 +315,94 @@ class Light2(LightweightTask):
         pass
 
 
+# --- defaults that are configurations carrying NON-default Meta / Option / Path values (C02: the default installed for an
+# unset parameter must still be == the declared default, so that the parameter stays outside the signature)
+
+class DcOpt(Config):
+    __xpmid__ = "zoo.dcopt"
+    lr: Param[float] = 1e-3
+    verbose: Meta[bool] = False
+    note: Option[str] = "o"
+    cache: Meta[Optional[Path]] = None
+
+
+class DcOptP(Config):
+    """an ignored argument without a default (plain Param[Path])"""
+    __xpmid__ = "zoo.dcoptp"
+    lr: Param[float] = 1e-3
+    p: Param[Path]
+
+
+class DcWrap(Config):
+    __xpmid__ = "zoo.dcwrap"
+    k: Param[int] = 0
+    opt: Param[DcOpt] = DcOpt(lr=1e-3)
+
+
+class DcBase(Config):
+    __xpmid__ = "zoo.dcbase"
+
+
+class DcOld(DcBase):
+    __xpmid__ = "zoo.dc"
+    epochs: Param[int]
+
+
+class DcControl(DcBase):
+    """control: the default configuration has every ignored argument at its own default"""
+    __xpmid__ = "zoo.dc"
+    epochs: Param[int]
+    optimizer: Param[DcOpt] = DcOpt(lr=0.5)
+
+
+class DcMeta(DcBase):
+    __xpmid__ = "zoo.dc"
+    epochs: Param[int]
+    optimizer: Param[DcOpt] = DcOpt(lr=1e-3, verbose=True)
+
+
+class DcOption(DcBase):
+    __xpmid__ = "zoo.dc"
+    epochs: Param[int]
+    optimizer: Param[DcOpt] = DcOpt(lr=0.5, note="other")
+
+
+class DcPath(DcBase):
+    __xpmid__ = "zoo.dc"
+    epochs: Param[int]
+    optimizer: Param[DcOpt] = DcOpt(cache=Path("/zoo/cache"))
+
+
+class DcReqPath(DcBase):
+    __xpmid__ = "zoo.dc"
+    epochs: Param[int]
+    optimizer: Param[DcOptP] = DcOptP(p=Path("/zoo/p"))
+
+
+class DcList(DcBase):
+    __xpmid__ = "zoo.dc"
+    epochs: Param[int]
+    opts: Param[List[DcOpt]] = [DcOpt(verbose=True), DcOpt(lr=0.5)]
+
+
+class DcDict(DcBase):
+    __xpmid__ = "zoo.dc"
+    epochs: Param[int]
+    named: Param[Dict[str, DcOpt]] = {"a": DcOpt(note="n"), "b": DcOpt(lr=0.5)}
+
+
+class DcNested(DcBase):
+    __xpmid__ = "zoo.dc"
+    epochs: Param[int]
+    wrap: Param[DcWrap] = DcWrap(k=1, opt=DcOpt(lr=0.5, verbose=True, cache=Path("/zoo/c")))
+
+
+class DcHolder(Config):
+    __xpmid__ = "zoo.dcholder"
+    e: Param[DcBase]
+    es: Param[List[DcBase]] = []
+
+
 #: type name expected in the signature of an instance of each class (the replacement's name for a deprecated class)
 TYPEID = {
     Leaf: "zoo.leaf", Pair: "zoo.pair", Pair2: "zoo.pair2", Scal: "zoo.scal", AnyP: "zoo.anyp", Lst: "zoo.lst",
@@ -325,4 +413,7 @@ TYPEID = {
     EvoDict: "zoo.evo", EvoHolder: "zoo.evoholder", EvoBase: "zoo.evobase", Node: "zoo.node", NewC: "zoo.newc", OldC: "zoo.newc",
     DerivedC: "zoo.derivedc", DepHolder: "zoo.depholder", Producer: "zoo.producer", Producer2: "zoo.producer2",
     Plain: "zoo.plain", Consumer: "zoo.consumer", Light: "zoo.light", Light2: "zoo.light2",
+    DcOpt: "zoo.dcopt", DcOptP: "zoo.dcoptp", DcWrap: "zoo.dcwrap", DcBase: "zoo.dcbase", DcOld: "zoo.dc", DcControl: "zoo.dc",
+    DcMeta: "zoo.dc", DcOption: "zoo.dc", DcPath: "zoo.dc", DcReqPath: "zoo.dc", DcList: "zoo.dc", DcDict: "zoo.dc",
+    DcNested: "zoo.dc", DcHolder: "zoo.dcholder",
 }
